@@ -30,6 +30,101 @@ def declared(tree):
     return out
 
 
+def cstmt(st):
+    k = st[0]
+    if k == 'star':
+        return f"SStar {cs(st[1])}"
+    if k == 'from':
+        return f"SFrom {cs(st[1])} {clist(st[2], lambda ab: f'({cs(ab[0])}, {cs(ab[1])})')}"
+    if k == 'import':
+        return f"SImport {cs(st[1])} {cs(st[2])} {cs(st[3])}"
+    if k == 'def':
+        return f"SDef {cs(st[1])}"
+    if k == 'all':
+        return f"SAll {clist(st[1], cs)}"
+    if k == 'rebind':
+        return f"SRebind {clist(st[1], cs)}"
+    raise ValueError(st)
+
+
+def cprogram(prog):
+    return clist(prog, lambda m: f"({cs(m[0])}, {clist(m[1], cstmt)})")
+
+
+def model_verdicts(name, items):
+    """items: list of (program, [(first, [(pkg, home, name)])]) -> per item, per first: (bad paths, bad name triples) according to Model/PyImport.v"""
+    os.makedirs(os.path.join(COQ, 'Cases'), exist_ok=True)
+    fn = os.path.join(COQ, 'Cases', f"{name}.v")
+    with open(fn, 'w') as f:
+        f.write("From EO Require Import Prelude.Py Model.Spec Model.PyImport.\nOpen Scope string_scope.\nOpen Scope list_scope.\n")
+        for k, (prog, probes) in enumerate(items):
+            f.write(f"Definition P{k} : program := {cprogram(prog)}.\n")
+            for j, (first, names) in enumerate(probes):
+                f.write(f"Eval vm_compute in (match fresh_run 4000 P{k} {cs(first)} with None => ([\"OUT-OF-FUEL\"%string], []) | Some w => (paths_ok w, List.filter (fun t => negb (name_ok w (fst (fst t)) (snd (fst t)) (snd t))) "
+                        f"{clist(names, lambda t: f'({cs(t[0])}, {cs(t[1])}, {cs(t[2])})')}) end).\n")
+    rc, out = sh(['bash', '-c', f'ulimit -s unlimited 2>/dev/null; exec timeout 900 coqc -Q {COQ} EO -w -all {fn}'], cwd=COQ, timeout=1000)
+    if rc != 0:
+        raise CoqCaseError(name, fn, out)
+    chunks = re.split(r'\n\s*=\s*', '\n' + out)[1:]
+    res = []
+    for ch in chunks:
+        body = ch.split('\n     :')[0]
+        # (paths list, triples list)
+        depth, split_at = 0, None
+        for i, c in enumerate(body):
+            if c == '[':
+                depth += 1
+            elif c == ']':
+                depth -= 1
+                if depth == 0 and split_at is None:
+                    split_at = i
+                    break
+        paths = re.findall(r'"([^"]*)"', body[:split_at + 1])
+        trip = re.findall(r'"([^"]*)"', body[split_at + 1:])
+        res.append((sorted(paths), sorted(tuple(trip[i:i + 3]) for i in range(0, len(trip), 3))))
+    out_items, k = [], 0
+    for prog, probes in items:
+        out_items.append(res[k:k + len(probes)])
+        k += len(probes)
+    if k != len(res):
+        raise CoqCaseError(name, fn, out)
+    return out_items
+
+
+def extra_checks(C, entries):
+    """the import programs extracted from the real files, run through Model/PyImport.v, must give CPython's verdicts"""
+    items, metas = [], []
+    for e in entries:
+        r = e['result']
+        for out in r.get('results', []):
+            if out.get('unreadable'):
+                C.cov['tie']['import programs'] = f"correspondence-only (extractor: {out['unreadable'][:2]})"
+                continue
+            if 'program' not in out:
+                continue
+            probes = [(pr['first'], [tuple(t) for t in pr.get('names_checked', [])]) for pr in out['probes'] if not pr['errors']]
+            items.append(([(m[0], [tuple(x) if not isinstance(x, tuple) else x for x in map(lambda st: tuple(st[:1]) + tuple((tuple(map(tuple, y)) if (isinstance(y, list) and y and isinstance(y[0], list)) else y) for y in st[1:]), m[1])]) for m in out['program']], probes))
+            metas.append((e, [pr for pr in out['probes'] if not pr['errors']]))
+    if not items:
+        return
+    try:
+        verdicts = model_verdicts('c20', items)
+    except CoqCaseError as ex:
+        C.broken.append(dict(kind='correspondence', stream='import-model', msg=str(ex)[-800:]))
+        return
+    n = 0
+    for (e, probes), vs in zip(metas, verdicts):
+        for pr, (mp, mn) in zip(probes, vs):
+            n += 1
+            ip = sorted(m['path'] for m in pr['path_mismatches'])
+            inn = sorted((m.get('looked_up_in'), m['defined_in'], m['name']) for m in pr['name_mismatches'] if m.get('looked_up_in'))
+            if ip != mp or inn != mn:
+                C.disagreement('import-model', dict(tree=e['name'], first=pr['first']), model=dict(paths=mp, names=mn[:5]), impl=dict(paths=ip, names=inn[:5]))
+    C.stream('corr.import-model', n, n, sample=dict(tree=metas[0][0]['name'], first=metas[0][1][0]['first']))
+    C.cov['traces_validated_against_impl'] += n
+    C.cov['tie'].setdefault('import programs', 'extracted from every eolib module (static and generated) on this run by tools/impprog.py and evaluated by Model/PyImport.v')
+
+
 def run(tier):
     C = Check('C20', tier)
     C.prove('Properties/C20.v')
